@@ -463,7 +463,17 @@ class Facts:
             rows.append(atom(a))  # unsigned quantity
             if a[0] == "alignup":
                 rows.append(atom(a) - a[1])  # AlignUp(z) >= z
-                rows.append(a[1] + (a[2] - 1) - atom(a))  # AlignUp(z) <= z + A - 1
+                slack = a[2] - 1
+                if not self.__dict__.get("_in_pad_cong"):
+                    # z ≡ r (mod m) with m | A: the padding is ≡ -r (mod m), hence at most A - m + (-r mod m)
+                    self.__dict__["_in_pad_cong"] = True
+                    try:
+                        m_, r_ = self.cong(a[1])
+                    finally:
+                        self.__dict__["_in_pad_cong"] = False
+                    if 1 < m_ < a[2] and a[2] % m_ == 0:
+                        slack = a[2] - m_ + ((-r_) % m_)
+                rows.append(a[1] + slack - atom(a))  # AlignUp(z) <= z + A - 1 (refined by the congruence of z)
                 for b, _ in a[1].t:
                     # (nested AlignUp atoms get their own bounds)
                     if b not in seen_atoms and b[0] != "unk":
@@ -946,7 +956,16 @@ def simplify_cond(c, facts, depth=0):
     if k == "or":
         return c_or(*[simplify_cond(x, facts, depth) for x in c[1:]])
     if k == "cmp":
-        return c_cmp(c[1], simplify(c[2], facts, depth + 1), simplify(c[3], facts, depth + 1))
+        l, r = simplify(c[2], facts, depth + 1), simplify(c[3], facts, depth + 1)
+        if c[1] in ("eq", "ne"):
+            # (y & -y) is the lowest set bit of y: zero exactly when y is zero
+            d = l - r
+            for sgn in (1, -1):
+                sa = d.scale(sgn).single_atom() if d.c == 0 else None
+                if sa is not None and sa[0] == "and" and isinstance(sa[1], Lin) and isinstance(sa[2], Lin) and sa[1] == -sa[2] and d.scale(sgn).coeff(sa) == 1:
+                    y = sa[2] if sa[2].c >= 0 else sa[1]
+                    return c_cmp(c[1], simplify(y, facts, depth + 1), ZERO)
+        return c_cmp(c[1], l, r)
     return c
 
 
